@@ -406,6 +406,21 @@ def c14_second_manager(tr):
 
 
 # ------------------------------------------------------------------------------------------- C19
+def _save_cut_off_by_the_end_of_the_run(tr, n):
+    """the save of node n was started by the task that executed n (`_run_node`), and that task ended cancelled"""
+    evs = _events(tr) + tr.get('after', [])
+    names, status, saver = {}, {}, None
+    for e in evs:
+        for o in e.get('obs', []):
+            if o[0] == 'spawn':
+                names[o[1]] = o[2]
+            if o[0] == 'save' and o[2] == n:
+                saver = e.get('t')
+        for d in e.get('done') or []:
+            status[d[0]] = d[1][0]
+    return saver is not None and names.get(saver) == ['node', n] and status.get(saver) == 'cancelled'
+
+
 def c19(tr, sem=None):
     v = []
     r = tr['results'][0] if tr['results'] else None
@@ -441,6 +456,12 @@ def c19(tr, sem=None):
             consumed.add(tr['graph']['output'])
             for n in sorted((consumed & valued & ordinary) - recdest):
                 if n in saves and n not in done:
+                    if _save_cut_off_by_the_end_of_the_run(tr, n) and not tr.get('c19_strict'):
+                        # recorded finding `save_cut_off`: `_run_node` stores the result before it awaits the save, so
+                        # run() can end — and cancel the node's task inside artifact_store.save — while the save is
+                        # suspended. Only this call site is excused: the save was awaited by the node's own task and that
+                        # task was cancelled by the end of the run. (A save that runs in a task of its own is not.)
+                        continue
                     v.append(f'the value of node {n} was delivered to its consumers but its save never completed '
                              f'(it was started and cancelled)')
     return v
@@ -584,7 +605,8 @@ HYPOTHESES = {'C06': c06_oracle}
 EVERYWHERE = ('C02', 'C04', 'C06', 'C09', 'C12', 'C13', 'C14', 'C19')      # monitors that need no fragment hypothesis
 
 def c19_strict(tr, sem=None):
-    """C19 with the multiplicity rule also inside recurrent pipelines (the recorded finding)"""
+    """C19 without the two excuses for recorded findings: the multiplicity rule also inside recurrent pipelines, and a
+    save that the end of the run cut off inside the node's own task"""
     t = dict(tr)
     t['c19_strict'] = True
     return c19(t, sem)
